@@ -1210,7 +1210,8 @@ x
         if np.size(valid) != self.E:
             raise ValueError("the input vector does not have the correct size")
         valid = np.reshape(valid, np.size(valid))
-        self.E = int(valid.sum())
+        # the edges kept are those with valid != 0, whatever the values
+        self.E = int(np.sum(valid != 0))
         self.edges = self.edges[valid != 0]
         self.weights = self.weights[valid != 0]
 
